@@ -32,7 +32,7 @@ static struct uqueue q;
 static void *extra;
 static bool q_inited;
 
-#define MAXEV 512
+#define MAXEV 2048
 struct ev { char e; uint8_t t; int v; };
 static struct ev evs[MAXEV];
 static int nev;
@@ -96,9 +96,28 @@ static void setup(void *ctx)
 }
 
 static bool internal_kind(int k) { return k == 1 || k == 2 || k == 3 || k == 10 || k == 11; }
+/* macro granularity: the kind of every scheduling step is recorded (Step events), so that a rejected
+ * execution can be compared with the detailed model spec/Uqueue.tla step by step */
+static const char *const step_names[] = { "other", "start", "wake", "fifo", "rdpush", "rdpop", "wrpush", "wrpop",
+                                          "fadd", "fsub", "ldcnt" };
+static int step_code(int k, const void *o)
+{
+    if (k == VS_KIND_START) return 1;
+    if (k == VS_KIND_WAIT) return 2;
+    if (k == 20) return o == (const void *)&q.event_push ? 4 : o == (const void *)&q.event_pop ? 5 : 0;
+    if (k == 21) return o == (const void *)&q.event_push ? 6 : o == (const void *)&q.event_pop ? 7 : 0;
+    if (o == (const void *)&q.counter) return k == 4 ? 8 : k == 5 ? 9 : k == 2 ? 10 : 0;
+    if (k == 2) return 3;
+    return 0;
+}
 static void macro_step(void *ctx, int t)
 {
     int k = vs_pending_kind(t);
+    log_ev('K', t, step_code(k, vs_pending_obj(t)));
+    if (k == 2 && vs_pending_obj(t) == (const void *)&q.counter) {
+        vs_step(t);             /* a load of the counter is a step of its own, not a FIFO operation */
+        return;
+    }
     vs_step(t);
     if (k == 2 /* LOAD: first access of a ufifo operation */)
         while (vs_runnable(t) && internal_kind(vs_pending_kind(t)))
@@ -118,7 +137,7 @@ static bool finish(void *ctx, const uint8_t *sched, int len, bool stuck)
 {
     nruns++;
     uint64_t h = 1469598103934665603ULL;
-    for (int i = 0; i < nev; i++) { h = (h ^ (((uint64_t)(uint8_t)evs[i].e << 40) ^ ((uint64_t)evs[i].t << 32) ^ (uint32_t)evs[i].v)) * 1099511628211ULL; h ^= h >> 29; }
+    for (int i = 0; i < nev; i++) { if (evs[i].e == 'K') continue; h = (h ^ (((uint64_t)(uint8_t)evs[i].e << 40) ^ ((uint64_t)evs[i].t << 32) ^ (uint32_t)evs[i].v)) * 1099511628211ULL; h ^= h >> 29; }
     h |= 1;
     uint64_t mask = (1ULL << HBITS) - 1, i = h & mask;
     while (seen[i]) { if (seen[i] == h) return true; i = (i + 1) & mask; }
@@ -137,6 +156,7 @@ static bool finish(void *ctx, const uint8_t *sched, int len, bool stuck)
         case 'r': printf("{\"e\":\"PopRet\",\"t\":%d,\"v\":%d}\n", e->t, e->v); break;
         case 'S': printf("{\"e\":\"Sleep\",\"t\":%d}\n", e->t); break;
         case 'W': printf("{\"e\":\"Wake\",\"t\":%d}\n", e->t); break;
+        case 'K': printf("{\"e\":\"Step\",\"t\":%d,\"k\":\"%s\"}\n", e->t, step_names[e->v]); break;
         }
     }
     if (crashed) printf("{\"e\":\"Crash\"}\n");
